@@ -114,6 +114,10 @@ def run_fault(case, chooser):
         fop = spy.failed[0][1]
         sig_base = {"script_verb": verb, "failed_op": fop, "mode": case["mode"]}
         finals = [c for c in first_cmd_codes if not c.startswith("1")]
+        if verb == "ABOR" and finals[-2:] == ["451", "226"]:
+            # the backend failed while the aborted transfer was winding up: 451 is the transfer's completion reply,
+            # the 226 behind it answers the ABOR itself
+            finals = finals[:-1]
         if "451" not in finals:
             problems.append({"kind": "no-451", "codes": first_cmd_codes, **sig_base})
         if any(c.startswith("2") for c in finals) and case["mode"] == "single":
